@@ -125,6 +125,11 @@ func checkC07(c *Ctx) {
 	st.Wait()
 	checkC07Traces(c)
 	checkC07LongLoops(c)
+	if c.Thorough() {
+		checkLongHistories(c, []int{1000, 400000})
+	} else {
+		checkLongHistories(c, []int{320000})
+	}
 	ncore := 150
 	if c.Thorough() {
 		ncore = 2500
